@@ -38,8 +38,39 @@ func c09LoadOfField(v ssa.Value, fld *types.Var) bool {
 func runC09(c *an.Ctx) {
 	p := c.P
 	const uio = "ipld/unixfs/io"
-	fOff, fCur, fWalker := p.Field(uio, "dagReader", "offset"), p.Field(uio, "dagReader", "currentNodeData"), p.Field(uio, "dagReader", "dagWalker")
-	if !c.Need(fOff != nil && fCur != nil && fWalker != nil, "dagReader fields offset,currentNodeData,dagWalker") {
+	// the reader type: the struct of package unixfs/io that implements the exported DagReader interface; its fields by type
+	var fOff, fCur, fWalker *types.Var
+	readerType := ""
+	if it := p.Named(uio, "DagReader"); it != nil {
+		if iface, ok := it.Underlying().(*types.Interface); ok {
+			for _, T := range p.XBImplementers(uio, iface) {
+				st, ok := T.Underlying().(*types.Struct)
+				if !ok {
+					continue
+				}
+				var o, cu, w *types.Var
+				nInt64 := 0
+				for i := 0; i < st.NumFields(); i++ {
+					f := st.Field(i)
+					switch {
+					case an.TypeIs(f.Type(), "bytes", "Reader"):
+						cu = f
+					case an.TypeIs(f.Type(), "github.com/ipfs/go-ipld-format", "Walker"):
+						w = f
+					default:
+						if b, ok := f.Type().Underlying().(*types.Basic); ok && b.Kind() == types.Int64 {
+							o = f
+							nInt64++
+						}
+					}
+				}
+				if cu != nil && w != nil && o != nil && nInt64 == 1 {
+					fOff, fCur, fWalker, readerType = o, cu, w, T.Obj().Name()
+				}
+			}
+		}
+	}
+	if !c.Need(fOff != nil && fCur != nil && fWalker != nil, "DagReader implementation with a *bytes.Reader leaf buffer, an *ipld.Walker and one int64 position") {
 		return
 	}
 	fns := p.PkgFuncs(uio)
@@ -214,8 +245,8 @@ func runC09(c *an.Ctx) {
 	c.Min("O1 stores to dagReader.currentNodeData", nCur, 1)
 
 	// ---- O2: Seeker family rule on dagReader.Seek + reset before walking
-	seek := p.Func(uio, "dagReader", "Seek")
-	if c.Need(seek != nil, "dagReader.Seek") {
+	seek := p.Func(uio, readerType, "Seek")
+	if c.Need(seek != nil, "Seek method of the DagReader implementation") {
 		kind := an.XBCheckSeeker(c, "O2", seek)
 		c.Check(kind == "computing", "O2", "R-EXH", an.FuncName(seek), "interprets-whence", seek.Pos(), "dagReader.Seek interprets whence itself", "dagReader.Seek no longer interprets whence")
 	}
@@ -423,6 +454,12 @@ func runC09(c *an.Ctx) {
 
 	// ---- O5: the count returned to the caller accumulates every consumed count, and a bounded buffer is filled at
 	// the position given by that count
+	consumerRole := func(k ssa.CallInstruction) string {
+		if partialConsumers[an.Callee(k).Static] {
+			return "consume-into-buffer"
+		}
+		return "consume-all"
+	}
 	nAcc := 0
 	for _, g := range fns {
 		if g.Parent() != nil || consumerFns[g] {
@@ -502,7 +539,7 @@ func runC09(c *an.Ctx) {
 						}
 					}
 				}
-				c.Check(fwd, "O5", "R-FLOW", an.FuncName(g), "count<-"+an.Callee(k).Name, k.Pos(), "the consumed count is returned", "a count consumed from the leaf buffer is not returned to the caller")
+				c.Check(fwd, "O5", "R-FLOW", an.FuncName(g), "count<-"+consumerRole(k), k.Pos(), "the consumed count is returned", "a count consumed from the leaf buffer is not returned to the caller")
 			}
 			continue
 		}
@@ -588,7 +625,7 @@ func runC09(c *an.Ctx) {
 			}
 			// accumulate before the error test is fine too; what matters is that no non-error path to a return skips it
 			esc := an.ReachesAnyReturn(h, k, cut, blocked)
-			c.Check(len(accs) > 0 && esc == nil, "O5", "R-FLOW", an.FuncName(h), "count+="+an.Callee(k).Name, k.Pos(),
+			c.Check(len(accs) > 0 && esc == nil, "O5", "R-FLOW", an.FuncName(h), "count+="+consumerRole(k), k.Pos(),
 				"the consumed count is added to the count returned to the caller on every non-error path",
 				"bytes consumed from the leaf buffer are not added to the returned count (n += consumed) on every non-error path: Read/WriteTo report fewer bytes than they delivered, callers lose or re-read data")
 			// bounded buffer: the destination is buffer[count:] (or the whole buffer for the first, directly assigned, consumption)
